@@ -240,7 +240,10 @@ class SnootyToTroffTree:
         heading = next(
             (child for child in node.children if isinstance(child, n.Heading)), None
         )
-        assert heading is not None, "Section without heading"
+        if heading is None:
+            # The wrapper sections of "step" and "collapsible" directives have no heading of
+            # their own: render what they hold without opening a man page section.
+            return self.children(node.children)
         return [
             ManNode(
                 ManNode.ElementType.SECTION,
